@@ -36,13 +36,13 @@ func analysePipeline(w *World) *pipeline {
 	// provider allocation node
 	p.alloc, _ = providerAllocNode(w, ro, p.flow)
 	// error variables of step calls
-	stepOf := map[types.Object]string{}
+	stepOf := map[types.Object][]string{}
 	ast.Inspect(fi.Decl.Body, func(x ast.Node) bool {
 		if as, ok := x.(*ast.AssignStmt); ok && len(as.Rhs) == 1 && len(as.Lhs) >= 1 {
 			if c, ok := unparen(as.Rhs[0]).(*ast.CallExpr); ok {
 				if cal := callee(info, c); cal != nil && w.Decls[cal] != nil {
 					if o := objOf(info, as.Lhs[len(as.Lhs)-1]); o != nil && isErrorType(o.Type()) {
-						stepOf[o] = cal.Name()
+						stepOf[o] = append(stepOf[o], cal.Name())
 					}
 				}
 			}
@@ -85,8 +85,15 @@ func analysePipeline(w *World) *pipeline {
 			} else if isNilIdent(info, be.X) {
 				o = objOf(info, be.Y)
 			}
-			step, ok := stepOf[o]
-			if !ok || !in.Has("pending:"+step) {
+			// the error variable may be bound by several steps (err = other(…) inside a failure
+			// branch): the one that is pending on this path is the one being tested
+			step, ok := "", false
+			for _, cand := range stepOf[o] {
+				if in.Has("pending:" + cand) {
+					step, ok = cand, true
+				}
+			}
+			if !ok {
 				return
 			}
 			succeeded := (be.Op == token.EQL) == (i == 0)
@@ -272,13 +279,13 @@ func analysePipelineWith(w *World, fill *ast.RangeStmt) *pipeline {
 	q := analysePipeline(w)
 	q.fillLoop = fill
 	// the Edge closure of analysePipeline captured p (without fillLoop): recompute
-	stepOf := map[types.Object]string{}
+	stepOf := map[types.Object][]string{}
 	ast.Inspect(fi.Decl.Body, func(x ast.Node) bool {
 		if as, ok := x.(*ast.AssignStmt); ok && len(as.Rhs) == 1 && len(as.Lhs) >= 1 {
 			if c, ok := unparen(as.Rhs[0]).(*ast.CallExpr); ok {
 				if cal := callee(info, c); cal != nil && w.Decls[cal] != nil {
 					if o := objOf(info, as.Lhs[len(as.Lhs)-1]); o != nil && isErrorType(o.Type()) {
-						stepOf[o] = cal.Name()
+						stepOf[o] = append(stepOf[o], cal.Name())
 					}
 				}
 			}
@@ -311,8 +318,15 @@ func analysePipelineWith(w *World, fill *ast.RangeStmt) *pipeline {
 			} else if isNilIdent(info, be.X) {
 				o = objOf(info, be.Y)
 			}
-			step, ok := stepOf[o]
-			if !ok || !in.Has("pending:"+step) {
+			// the error variable may be bound by several steps (err = other(…) inside a failure
+			// branch): the one that is pending on this path is the one being tested
+			step, ok := "", false
+			for _, cand := range stepOf[o] {
+				if in.Has("pending:" + cand) {
+					step, ok = cand, true
+				}
+			}
+			if !ok {
 				return
 			}
 			if (be.Op == token.EQL) == (i == 0) {
